@@ -1,1 +1,2 @@
+pub mod component;
 pub mod module;
